@@ -2,6 +2,7 @@
 
 from __future__ import annotations
 
+import json
 import re
 from typing import TYPE_CHECKING
 
@@ -34,6 +35,17 @@ RE_FLOW = re.compile(
     r"<(\/?)(iframe|noembed|noframes|plaintext|script|style|title|textarea|xmp)(?=[\t\n\f\r />])",
     re.IGNORECASE,
 )
+
+
+RE_PLAIN_VALUE = re.compile(r"[\w\-./%]+( [\w\-./%]+)*")
+
+
+def _quote(value: str | None) -> str:
+    """Quote an attribute value, so that it is read back unchanged as a directive option."""
+    value = value or ""
+    if RE_PLAIN_VALUE.fullmatch(value):
+        return value
+    return json.dumps(value, ensure_ascii=False)
 
 
 def default_html(text: str, source: str, line_number: int) -> list[nodes.Element]:
@@ -91,13 +103,13 @@ def html_to_nodes(
                     )
                 ]
             content = "\n".join(
-                f":{k}: {v}"
+                f":{k}: {_quote(v)}"
                 for k, v in sorted(child.attrs.items())
                 if k in OPTION_KEYS_IMAGE
             )
             nodes_list.extend(
                 renderer.run_directive(
-                    "image", child.attrs["src"], content, line_number
+                    "image", child.attrs["src"] or "", content, line_number
                 )
             )
 
@@ -115,7 +127,7 @@ def html_to_nodes(
             )
 
             options = "\n".join(
-                f":{k}: {v}"
+                f":{k}: {_quote(v)}"
                 for k, v in sorted(child.attrs.items())
                 if k in OPTION_KEYS_ADMONITION
             ).rstrip()
